@@ -180,6 +180,32 @@ func runMerge(cfg *runCfg, prop string, injectPct int, oracle string) error {
 			obsTerms = append(obsTerms, fmt.Sprintf("{| ob_perm := [%s]%%nat; ob_cls := %s; ob_merged := %s; ob_urls := %s |}",
 				strings.Join(perm, "; "), c18Class(obs.Class), mt, ut))
 		}
+		if prop == "C10" {
+			// "... and for every run": the first two orders once more, one after the other over the SAME
+			// parsed schema objects -- whatever an earlier construction did to its sources, the next one
+			// starts from them
+			shared := make([]*ast.Schema, len(base))
+			for i, s := range mc.Services {
+				shared[i], _ = loadSvcSchema(s.SDL, mc.Strip)
+			}
+			for _, order := range mc.Orders[:2] {
+				obs, _, _ := mergeShared(mc, order, shared)
+				observed = append(observed, obs)
+				perm := []string{}
+				for _, i := range obs.Order {
+					perm = append(perm, fmt.Sprint(i))
+				}
+				mt := "{| m_types := []; m_dirs := []; m_possible := []; m_implements := []; m_roots := [] |}"
+				ut := "[]"
+				if obs.Class == "ok" {
+					mt = c.Merged(obs.schema)
+					ut = c.URLMap(obs.urls)
+				}
+				obsTerms = append(obsTerms, fmt.Sprintf("{| ob_perm := [%s]%%nat; ob_cls := %s; ob_merged := %s; ob_urls := %s |}",
+					strings.Join(perm, "; "), c18Class(obs.Class), mt, ut))
+			}
+			doc.Dist["same-objects-second-run"]++
+		}
 		if prop == "C03" && len(base) >= 3 {
 			// a schema reload: two gateways built from the same parsed schema objects, the second with
 			// another choice of services; the first is read only after the second was built
